@@ -2285,9 +2285,12 @@ def convert_mean_to_depthwise_conv(op, arch, nng):
         ifm_shape = full_shape(4, ifm_shape, 1)
         intermediate_shape = full_shape(4, intermediate_shape, 1)
 
-        # If all dimensions to reduce have shape 1, the operation is essentially a memcpy.
+        # If all dimensions to reduce have shape 1, the operation is essentially a memcpy - unless the output is
+        # quantised differently from the input, in which case the values have to be rescaled.
         # We can then remove the whole op by propagating ofm to previous ops
-        if not any([reduce_axis[i] and ifm_shape[i] > 1 for i in range(4)]):
+        if not any([reduce_axis[i] and ifm_shape[i] > 1 for i in range(4)]) and check_quantized_tens_scaling_equal(
+            op.ifm, op.ofm
+        ):
             op.type = Op.Memcpy
             op = bypass_memory_only_ops(op, arch, nng)
             return op
